@@ -17,6 +17,28 @@ func ruleU8(p *Prog) *RuleResult {
 	res := newResult("U8", ruleDoc["U8"], 1)
 	fns := append([]*ssa.Function(nil), p.sourceFns()...)
 	sort.Slice(fns, func(i, j int) bool { return fname(fns[i]) < fname(fns[j]) })
+	// call sites per callee (static) and per method name (interface invokes)
+	static := map[*ssa.Function][]*ssa.CallCommon{}
+	invoke := map[string][]*ssa.CallCommon{}
+	for _, g := range fns {
+		if g.Blocks == nil {
+			continue
+		}
+		for _, b := range g.Blocks {
+			for _, ins := range b.Instrs {
+				ci, ok := ins.(ssa.CallInstruction)
+				if !ok {
+					continue
+				}
+				cc := ci.Common()
+				if cc.IsInvoke() {
+					invoke[cc.Method.Name()] = append(invoke[cc.Method.Name()], cc)
+				} else if callee := cc.StaticCallee(); callee != nil {
+					static[callee] = append(static[callee], cc)
+				}
+			}
+		}
+	}
 	// carriesBase: v is key<<16 (key a 16-bit value widened to 32 bits) or combines one with |, +
 	var carriesBase func(v ssa.Value, depth int) bool
 	carriesBase = func(v ssa.Value, depth int) bool {
@@ -41,6 +63,34 @@ func ruleU8(p *Prog) *RuleResult {
 					return true
 				}
 			}
+		case *ssa.Parameter:
+			// a helper or kind method that is handed the chunk base by every caller
+			g := x.Parent()
+			idx := -1
+			for i, prm := range g.Params {
+				if prm == x {
+					idx = i
+				}
+			}
+			if idx < 0 || isExportedAPI(g) {
+				return false
+			}
+			n := 0
+			for _, cc := range static[g] {
+				if idx >= len(cc.Args) || !carriesBase(cc.Args[idx], depth+1) {
+					return false
+				}
+				n++
+			}
+			if g.Signature.Recv() != nil && idx >= 1 {
+				for _, cc := range invoke[g.Name()] {
+					if idx-1 >= len(cc.Args) || !carriesBase(cc.Args[idx-1], depth+1) {
+						return false
+					}
+					n++
+				}
+			}
+			return n > 0
 		case *ssa.Call:
 			// combineLoHi32 and friends
 			if g := x.Call.StaticCallee(); g != nil && len(g.Blocks) == 1 {
